@@ -106,6 +106,11 @@ type Gen struct {
 	argOfWanted map[string]bool
 	sumlenWanted map[string]bool
 	exportWanted map[string]bool
+	inlineStack []*ssa.Function
+	inlinePrefix string // unique per inlined call instance (value names must not collide with the caller's)
+	inlineRets  *[]inlineRet
+	inlineEntry *State
+	entryGuard  string
 	memLocals map[string]bool
 	localRefs map[string]string // ref term of a non-escaping local alloc (and its sub-objects) -> component prefix
 	ghostTypes map[string]types.Type
@@ -201,6 +206,12 @@ func (g *Gen) hasObl(name string) bool {
 }
 
 func (g *Gen) kindEnabled(kind string) bool {
+	if len(g.inlineStack) > 0 {
+		switch kind {
+		case "bounds", "nil", "div", "assert", "panic", "mapwrite", "makeslice", "nilcall", "cover":
+			return false
+		}
+	}
 	switch kind {
 	case "bounds", "nil", "div", "assert", "panic", "mapwrite", "makeslice", "nilcall":
 		return g.safety[kind]
